@@ -246,6 +246,25 @@ func (r *Runner) run(spec *PropSpec) *runResult {
 					ver[k] = true
 				}
 			}
+			// a function that touches a guarded map but is not on the property's list and has no contract
+			// (a new helper, a new method) is verified here for the lock discipline alone
+			for _, t := range r.w.guardedTouchers() {
+				if ver[t] || seen[t] || r.w.Contracts[t] != nil || r.w.testOnlyExempt(t, map[string]bool{}) || r.w.verifiedInPlace(t, ver, map[string]bool{}) {
+					continue
+				}
+				tfc := r.w.verifyFunc(t)
+				res.ctxs = append(res.ctxs, tfc)
+				if tfc.translateFail != "" {
+					res.translate = append(res.translate, shortKey(t)+": "+tfc.translateFail)
+					continue
+				}
+				for _, o := range tfc.obls {
+					if strings.HasPrefix(o.Kind, "lock.") {
+						res.obls = append(res.obls, o)
+					}
+				}
+				ver[t] = true
+			}
 			fc := r.w.groundGuardedAccess(ver)
 			res.ctxs = append(res.ctxs, fc)
 			res.obls = append(res.obls, fc.obls...)
@@ -381,6 +400,22 @@ func kindCounts(spec *PropSpec, kind string) bool {
 		return true
 	}
 	if len(spec.Kinds) == 0 {
+		return true
+	}
+	// "!kind" entries exclude; with only exclusions everything else counts
+	neg, pos := false, false
+	for _, k := range spec.Kinds {
+		if strings.HasPrefix(k, "!") {
+			neg = true
+			k = k[1:]
+			if k == kind || (strings.HasSuffix(k, "*") && strings.HasPrefix(kind, strings.TrimSuffix(k, "*"))) {
+				return false
+			}
+		} else {
+			pos = true
+		}
+	}
+	if neg && !pos {
 		return true
 	}
 	for _, k := range spec.Kinds {
@@ -576,7 +611,7 @@ func (r *Runner) checkMulti(specs map[string]*PropSpec, ids []string) int {
 		isKnown[k.Obligation] = true
 	}
 	fails := map[string][]string{}
-	note := func(fn, what string) {
+	note := func(fn, kind, what string) {
 		ps := owner[fn]
 		if len(ps) == 0 {
 			// attribute to everything (safe side)
@@ -586,6 +621,9 @@ func (r *Runner) checkMulti(specs map[string]*PropSpec, ids []string) int {
 			return
 		}
 		for id := range ps {
+			if kind != "" && specs[id] != nil && !kindCounts(specs[id], kind) {
+				continue
+			}
 			fails[id] = append(fails[id], what)
 		}
 	}
@@ -593,11 +631,11 @@ func (r *Runner) checkMulti(specs map[string]*PropSpec, ids []string) int {
 		if o.OK() || isKnown[o.Name] {
 			continue
 		}
-		note(o.Func, fmt.Sprintf("%s [%s]", o.Name, o.Status))
+		note(o.Func, o.Kind, fmt.Sprintf("%s [%s]", o.Name, o.Status))
 	}
 	for _, t := range res.translate {
 		fn := strings.SplitN(t, ":", 2)[0]
-		note(fn, "translate: "+truncate(t, 200))
+		note(fn, "", "translate: "+truncate(t, 200))
 	}
 	rc := 0
 	for _, id := range ids {
